@@ -7,6 +7,7 @@ mod oracle;
 mod run;
 mod scenarios;
 mod spec;
+mod wire;
 
 use mc_core::explore::{self, Cfg, Outcome, Scenario};
 use mc_core::report::{Evidence, Reporter, Violation};
@@ -15,6 +16,75 @@ use serde_json::{json, Value};
 use std::time::{Duration, Instant};
 
 struct Sc(spec::Scn);
+
+/// Executions in flight per worker thread: (scenario, prefix picks, start). A watchdog thread turns
+/// an execution that does not come back (some task spins, so the paused clock never advances and
+/// `settle` never returns) into a reported case instead of a stuck check.
+static INFLIGHT: std::sync::Mutex<Vec<(std::thread::ThreadId, String, Vec<u32>, Instant)>> = std::sync::Mutex::new(Vec::new());
+static STARTED: std::sync::atomic::AtomicU64 = std::sync::atomic::AtomicU64::new(0);
+const STUCK_AFTER: Duration = Duration::from_secs(60);
+
+struct InflightGuard;
+impl InflightGuard {
+    fn enter(name: &str, prefix: &[u32]) -> Self {
+        STARTED.fetch_add(1, std::sync::atomic::Ordering::Relaxed);
+        let id = std::thread::current().id();
+        INFLIGHT.lock().unwrap().push((id, name.to_string(), prefix.to_vec(), Instant::now()));
+        InflightGuard
+    }
+}
+impl Drop for InflightGuard {
+    fn drop(&mut self) {
+        let id = std::thread::current().id();
+        let mut g = INFLIGHT.lock().unwrap();
+        if let Some(p) = g.iter().position(|e| e.0 == id) {
+            g.swap_remove(p);
+        }
+    }
+}
+
+fn start_watchdog(tier: String, replay_mode: bool) {
+    std::thread::spawn(move || loop {
+        std::thread::sleep(Duration::from_secs(2));
+        let stuck = INFLIGHT.lock().unwrap().iter().find(|e| e.3.elapsed() > STUCK_AFTER).map(|e| (e.1.clone(), e.2.clone()));
+        if let Some((name, picks)) = stuck {
+            let what = format!(
+                "scenario {name} with peer choices {picks:?}: the execution does not come back after {} s of wall time; some task of the connection keeps waking itself, so the run-until-stalled settle never ends (a livelock: no stream can complete)",
+                STUCK_AFTER.as_secs()
+            );
+            if replay_mode {
+                println!("FAILS clause=f signature=livelock:settle-never-returns");
+                println!("  {what}");
+                std::process::exit(1);
+            }
+            let v = Violation {
+                property: "C08".into(),
+                clause: "f".into(),
+                signature: "livelock:settle-never-returns".into(),
+                what: what.clone(),
+                replay: json!({"scenario": name, "picks": picks}),
+                weight: 0,
+            };
+            let path = mc_core::report::write_replay(&v);
+            let mut ev = Evidence::new("C08", &tier, "exploration");
+            let n = STARTED.load(std::sync::atomic::Ordering::Relaxed);
+            ev.set("evaluations", n);
+            ev.set("distinct_nontrivial", 0u64);
+            ev.set("rule", "run aborted by the livelock watchdog; counts are executions started before the abort");
+            ev.set("samples", json!([{"scenario": name, "picks": picks}]));
+            ev.set("exhaustive", false);
+            ev.set("capped", true);
+            ev.violations = 1;
+            ev.write();
+            println!("VIOLATION property=C08 replay={}", path.display());
+            println!("  clause=f signature=livelock:settle-never-returns");
+            println!("  {what}");
+            std::process::exit(1);
+        }
+    });
+}
+
+static MAX_POLLS: std::sync::atomic::AtomicU64 = std::sync::atomic::AtomicU64::new(0);
 
 fn obs_value(scn: &spec::Scn, ex: &run::Exec) -> Value {
     json!({
@@ -35,7 +105,9 @@ impl Scenario for Sc {
         if std::env::var("H2X_TRACE").is_ok() {
             eprintln!("TRACE {} prefix_len={}", scn.name, ch.prefix_len());
         }
+        let guard = InflightGuard::enter(&scn.name, ch.prefix());
         let ex = run::execute(scn, ch);
+        drop(guard);
         if ex.horizon {
             mc_core::machinery(format!(
                 "scenario {} picks {:?}: still making progress after {} settle steps (horizon too small for this scenario)",
@@ -44,6 +116,15 @@ impl Scenario for Sc {
                 run::MAX_STEPS
             ));
         }
+        if ex.polls > run::POLL_BUDGET {
+            mc_core::machinery(format!(
+                "scenario {} picks {:?}: poll budget of {} exceeded (livelock between the peer library and the server)",
+                scn.name,
+                ch.picks(),
+                run::POLL_BUDGET
+            ));
+        }
+        MAX_POLLS.fetch_max(ex.polls, std::sync::atomic::Ordering::Relaxed);
         if let Some((loc, msg)) = &ex.task_panic {
             if loc.contains("/h2x/src/") || loc.contains("/mc-core/") {
                 mc_core::machinery(format!("harness task panicked at {loc}: {msg}"));
@@ -131,6 +212,7 @@ fn main() {
         }
     }
 
+    start_watchdog(args.tier.clone(), args.replay.is_some());
     if let Some(path) = &args.replay {
         let file = mc_core::report::read_replay(path);
         let rp = if file.get("replay").is_some() { file["replay"].clone() } else { file.clone() };
@@ -146,23 +228,12 @@ fn main() {
             Some(k) if k.len() == picks.len() => Chooser::with_kinds(picks.clone(), k),
             _ => Chooser::new(picks.clone()),
         };
-        if std::env::var("H2X_ECHO").is_ok() {
-            std::thread::spawn(|| {
-                std::thread::sleep(Duration::from_secs(3));
-                use std::sync::atomic::Ordering::Relaxed;
-                eprintln!(
-                    "WATCHDOG: still running after 3 s; polls: server connection {}, client connection {}, handlers {}",
-                    run::SERVER_POLLS.load(Relaxed),
-                    run::CLIENT_POLLS.load(Relaxed),
-                    run::HANDLER_POLLS.load(Relaxed)
-                );
-                std::process::exit(2);
-            });
-        }
         println!("replay of scenario {name}");
         println!("{}", serde_json::to_string_pretty(&sc.describe()).unwrap());
         println!("picks: {picks:?}");
+        let guard = InflightGuard::enter(&name, &picks);
         let res = std::panic::catch_unwind(std::panic::AssertUnwindSafe(|| run::execute(&sc.0, &mut ch)));
+        drop(guard);
         let ex = match res {
             Ok(ex) => ex,
             Err(_) => {
@@ -177,6 +248,10 @@ fn main() {
         }
         for l in &ex.log {
             println!("  {l}");
+        }
+        if ex.polls > run::POLL_BUDGET {
+            eprintln!("MACHINERY: poll budget of {} exceeded (livelock between the peer library and the server)", run::POLL_BUDGET);
+            std::process::exit(2);
         }
         println!("observation: {}", serde_json::to_string_pretty(&obs_value(&sc.0, &ex)).unwrap());
         let findings = oracle::check(&sc.0, &ex);
@@ -195,7 +270,12 @@ fn main() {
     let mut reporter = Reporter::new("C08");
     let bounds: Vec<u32> = scns
         .iter()
-        .map(|s| if thorough { if s.0.core { 3 } else { 2 } } else { 1 })
+        .map(|s| match (thorough, s.0.core) {
+            (false, false) => 2,
+            (false, true) => 3,
+            (true, false) => 4,
+            (true, true) => 5,
+        })
         .collect();
     let wall = args.wall_s.unwrap_or(if thorough { 25 * 60 } else { 50 });
     let cfg = Cfg { wall: Duration::from_secs(wall), threads: mc_core::cli::threads(), max_unknown: 12 };
@@ -210,7 +290,10 @@ fn main() {
     if let Some(o) = &only {
         ev.set("restricted_to_scenarios_containing", o.clone());
     }
-    ev.set("core_scenarios_bound", if thorough { 3 } else { 1 });
+    ev.set("max_polls_in_one_execution", MAX_POLLS.load(std::sync::atomic::Ordering::Relaxed));
+    ev.set("poll_budget_per_execution", run::POLL_BUDGET);
+    ev.set("deviation_bound_core_scenarios", if thorough { 5 } else { 3 });
+    ev.set("deviation_bound_other_scenarios", if thorough { 4 } else { 2 });
     ev.set("findings", json!(reporter.summaries()));
     ev.assume("the h2 0.3.27 client and tokio's LocalSet/paused clock are deterministic for a fixed sequence of peer actions (checked: default and failing schedules are executed twice and must give identical observations)");
     ev.assume("task interleaving inside the server is the FIFO order of one LocalSet; only the peer's behaviour is enumerated, as the property quantifies over it");
